@@ -173,6 +173,8 @@ class TryOrNoimp(Contract):
         called = len(S.func.calls) == 1 and len(S.func.calls[0].args) == 2 and S.func.calls[0].args[0] is S.me and S.func.calls[0].args[1] is S.other
         if self.outcome == 'return':
             return [('result-of-func(self,other)', z3.BoolVal(called and result is S.func.calls[0]))]
+        if self.outcome != 'DimensionError':
+            return [('other-exceptions-propagate', z3.BoolVal(False))]  # func raised %s: returning anything swallows it
         return [('DimensionError-becomes-NotImplemented', z3.BoolVal(called and result is NotImplemented))]
 
     def replay(self, ob):
